@@ -53,6 +53,18 @@ def leaf_state(ps):
   return out
 
 
+def power_iteration_estimates(ds, jnp, stats):
+  """The eigh root scales its ridge by power_iteration's estimate but does not report it; the estimate
+  is a deterministic function of the statistic (fixed start vector, whose leading entries do not depend
+  on the padded size; zero padding is masked), so it is recomputed by the same routine on the stored
+  statistic (float64, as the root routine casts it)."""
+  out = []
+  for s in stats:
+    m = jnp.asarray(np.asarray(s, np.float64))
+    out.append(float(ds.power_iteration(m, num_iters=100, error_tolerance=1e-6)[1]) if m.size else 0.0)
+  return out
+
+
 def run_case(case, jax, jnp, ds):
   rng = common.SplitMix64(case["seed"])
   shapes = case["shapes"]
@@ -86,6 +98,9 @@ def run_case(case, jax, jnp, ds):
     before = {k: leaf_state(state.stats[k]) for k in names}
     upd, new_state = opt.update(grads, state, params)
     after = {k: leaf_state(new_state.stats[k]) for k in names}
+    if case.get("eigh"):
+      for k in names:
+        after[k]["maxev_pi"] = power_iteration_estimates(ds, jnp, after[k]["stats"])
     lr_t = float(np.float32(lr(jnp.asarray(t, jnp.int32)))) if callable(lr) else float(lr)
     steps.append(dict(t=t, count_before=int(state.count), count_after=int(new_state.count), lr=lr_t,
                       leaves=[dict(name=k, shape=list(map(int, params[k].shape)),
